@@ -428,8 +428,8 @@ impl<'a> Lexer<'a> {
                                 Some('e' | 'E') => {
                                     acc.push('e');
                                     self.next();
-                                    if self.peek() == Some(&'-') {
-                                        acc.push('-');
+                                    if let Some(sign @ ('-' | '+')) = self.peek().copied() {
+                                        acc.push(sign);
                                         self.next();
                                     }
                                     while let Some(cc) = self.peek().filter(|d| d.is_digit(10)) {
@@ -491,8 +491,8 @@ impl<'a> Lexer<'a> {
                                 (_, Some('e' | 'E')) => {
                                     acc.push('e');
                                     self.next();
-                                    if self.peek() == Some(&'-') {
-                                        acc.push('-');
+                                    if let Some(sign @ ('-' | '+')) = self.peek().copied() {
+                                        acc.push(sign);
                                         self.next();
                                     }
                                     while let Some(cc) = self.peek().filter(|d| d.is_digit(10)) {
